@@ -76,11 +76,13 @@ def gen_cases(ctx):
             continue
         cases.append({"i": i, "kind": "string", "state": "absent", "target": rng.choice(TARGETS), "pkg": s, "variant": 0})
         i += 1
+    for c in cases:
+        c["env"] = rng.random() < 0.3
     # (3) full bootstrap on real scratch packages
     n = 3 if ctx.tier == "quick" else 12
     for k in range(n):
         cases.append({"i": i, "kind": "bootstrap", "state": "absent", "target": rng.choice(["default", "yaml", "dotslash"]) if k else "default",
-                      "pkg": "example.com/m/p1", "variant": k % 3})
+                      "pkg": "example.com/m/p1", "variant": k % 3, "env": k % 2 == 1})
         i += 1
     return cases
 
@@ -138,14 +140,19 @@ def eval_case(ctx, case):
     if pkg.startswith("-"):
         args.append("--")
     args.append(pkg)
-    r = core.run_mockery(ctx, root, args, timeout=120)
+    env = {}
+    if case.get("env"):
+        # MOCKERY_* variables configure a *run*; the file init writes must still state the documented defaults
+        env = {"MOCKERY_TEMPLATE": "matryer", "MOCKERY_LOG_LEVEL": "debug", "MOCKERY_FORCE_FILE_WRITE": "true", "MOCKERY_FORMATTER": "noop",
+               "MOCKERY_DIR": "elsewhere", "MOCKERY_ALL": "true", "MOCKERY_RECURSIVE": "true"}
+    r = core.run_mockery(ctx, root, args, env_extra=env, timeout=120)
     if r.timed_out:
         return Verdict.inconclusive("watchdog")
     after = core.snapshot(root)
     diff = core.snap_diff(before, after)
     rel = os.path.relpath(target, root)
     obs = {"exit": r.exit, "changed": sorted(diff), "target": rel}
-    tags = ["state=" + st, "target=" + tg, "kind=" + case["kind"]]
+    tags = ["state=" + st, "target=" + tg, "kind=" + case["kind"]] + (["env=MOCKERY_*"] if case.get("env") else [])
     if r.panicked:
         return Verdict.violated("init crashed with a Go panic", dict(obs, **r.brief()), tags)
     if existed:
